@@ -328,7 +328,13 @@ def gen_theory(rng, profile='c16'):
         _add_dvs(rng, th, ax, c17)
         if shape == 'twin':
             c2 = rand_term(rng, th, vs, 2, binders=c17)
-            tw = Assertion(f'rule-{i}b', c2, hyps[:1] + [(f'rule-{i}b.0', rand_term(rng, th, vs, 1, binders=c17))], shape='twin')
+            if rng.random() < 0.4:
+                # both assertions in ONE flat block, sharing all its hypotheses; the second may mention variables nothing else mentions
+                tw = Assertion(f'rule-{i}b', c2, list(hyps), shape='twin')
+                ax.flat_twin = True
+                th.features.add('flat_block_with_two_assertions')
+            else:
+                tw = Assertion(f'rule-{i}b', c2, hyps[:1] + [(f'rule-{i}b.0', rand_term(rng, th, vs, 1, binders=c17))], shape='twin')
             tw.dvs = [p for p in ax.dvs if p[0] in tw.vars and p[1] in tw.vars]
             ax.twin = tw
             th.features.add('twin_blocks')
@@ -793,6 +799,8 @@ def assertion_stmts(a: Assertion):
     if a.shape == 'twin':
         tw = a.twin
         tmain = [tw.label, '$a', tw.typecode] + t_text(tw.concl).split() + ['$.']
+        if getattr(a, 'flat_twin', False):
+            return [['${']] + dvs + hyps + [main, tmain, ['$}']]
         thyps = [[l, '$e', '|-'] + t_text(h).split() + ['$.'] for l, h in tw.hyps[1:]]
         return ([['${']] + dvs + hyps[:1] + [['${']] + hyps[1:] + [main, ['$}']] +
                 [['${']] + thyps + [tmain, ['$}'], ['$}']])
@@ -1190,6 +1198,26 @@ def late_dv_case(rng):
         lines.append(f'{v}-is-pattern $f #Pattern {v} $.')
     lines.append('imp-is-pattern $a #Pattern ( \\imp ph0 ph1 ) $.')
     lines.append(f'rel-is-pattern $a #Pattern ( {rel} ph0 ph1 ) $.')
+    if rng.random() < 0.5:
+        # TWO top-level $d statements with an axiom between them: the first restricts the axiom, the second does not; the lemma uses the
+        # axiom in a way only the second would forbid, so each $d has to stay where it was
+        I, J, M = (names[x] for x in rng.sample(range(n), 3))
+        lines.append(f'$d {I} {J} $.')
+        lines.append(f'ax-rel3 $a |- ( \\imp {I} ( {rel} {J} {M} ) ) $.')
+        if rng.random() < 0.5:
+            lines.append(f'ax-other $a |- ( \\imp {J} {J} ) $.')
+        lines.append(f'$d {I} {M} $.')
+        lem_floats = [v for v in order if v in (I, J)]
+        ax_floats = [v for v in order if v in (I, J, M)]
+        subst = {I: I, J: J, M: I}
+        letters = 'ABCDEFGHIJKLMNOPQRST'
+        proof = ''.join(letters[lem_floats.index(subst[v])] for v in ax_floats) + letters[len(lem_floats)]
+        lines.append(f'lem3 $p |- ( \\imp {I} ( {rel} {J} {I} ) ) $= ( ax-rel3 ) {proof} $.')
+        text = '\n'.join(lines) + '\n'
+        db, err = mm.verify_text(text, strict=True)
+        if err is not None or any(v is not None for v in db.results.values()):
+            raise AssertionError(f'late_dv_case (two $d) produced a database that O6(b) rejects: {err} {db.results if db else None}\n{text}')
+        return {'text': text, 'lemmas': ['lem3'], 'features': ['global_dv_after_axioms', 'two_global_dv_around_an_axiom']}
     lines.append(f'ax-rel $a |- ( {rel} {names[i]} {names[j]} ) $.')
     if rng.random() < 0.5:
         lines.append(f'ax-other $a |- ( \\imp {names[k]} {names[k]} ) $.')
